@@ -182,9 +182,12 @@ class Check(object):
         for rid, r in sorted(self.rules.items()):
             if r["status"] == "analysis-error":
                 continue
-            if r["instances"] < r["floor"]:
+            # the declared floor is the count confirmed by hand on the pinned tree; ordinary maintenance
+            # (merged handlers, a removed call site) may lower it somewhat, a collapse means the rule went blind
+            eff = max(1, int(r["floor"] * 0.7))
+            if r["instances"] < eff:
                 r["status"] = "analysis-error"
-                self.errors.append((rid, "instance floor not met: %d < %d (rule would pass vacuously)" % (r["instances"], r["floor"])))
+                self.errors.append((rid, "instance floor not met: %d < %d (70%% of the %d instances confirmed on the pinned tree; the rule would pass vacuously)" % (r["instances"], eff, r["floor"])))
         new, kf = [], []
         seen = set()
         for v in self.violations:
